@@ -12,7 +12,9 @@
 (* One checked state per curve.                                           *)
 (***************************************************************************)
 EXTENDS BinCurve, FiniteSets, Integers, TLC
-CONSTANT Polys
+CONSTANTS Polys,
+          AMax      \* coefficients a in 0..AMax (capped at the field size): the group law formulas involve a
+                    \* itself, the isomorphism class only Tr(a) and b
 VARIABLES f, a, b, go
 
 RECURSIVE NDeg(_)
@@ -20,7 +22,7 @@ NDeg(n) == IF n = 0 THEN 0 - 1 ELSE 1 + NDeg(n \div 2)
 Q == Pow2(NDeg(f))
 
 (* the invariant is evaluated on the successor state (go = TRUE) so that TLC's workers share the curves *)
-Init == /\ f \in Polys /\ a \in 0..(Pow2(NDeg(f)) - 1) /\ b \in 1..(Pow2(NDeg(f)) - 1) /\ go = FALSE
+Init == /\ f \in Polys /\ a \in 0..(IF AMax < Pow2(NDeg(f)) THEN AMax ELSE Pow2(NDeg(f)) - 1) /\ b \in 1..(Pow2(NDeg(f)) - 1) /\ go = FALSE
 Next == go = FALSE /\ go' = TRUE /\ UNCHANGED <<f, a, b>>
 Spec == Init /\ [][Next]_<<f, a, b, go>>
 
